@@ -55,6 +55,9 @@ struct C05 : Scenario {
         c.rotations = many ? std::round(r.uniform(24, 30)) : std::round(r.uniform(50, 70));
         c.outstep = c.steps; c.saveps = 0;
         c.zoom = r.chance(0.5) ? 1 : std::round(r.uniform(0.8, 1.2) * 100) / 100;
+        // "after relaxation from any start": a fifth of the runs start far from equilibrium, so small that the start has
+        // exactly-zero columns inside the region the stationary bunch occupies (float underflow beyond ~14 start sigmas)
+        if (r.chance(0.2)) { c.zoom = std::round(r.uniform(0.15, 0.3) * 100) / 100; c.rotations += std::round(4 * Td); }   // (further to go: four more damping times)
         c.to_plan(p);
         p.setu("entropy", r.u64());
         return p;
@@ -92,7 +95,20 @@ struct C05 : Scenario {
         double dl = 0, dp = 0;
         for (size_t k = nrec - 6; k < nrec; k++) { dl = std::max(dl, std::fabs(len[k] - len[nrec - 1])); dp = std::max(dp, std::fabs(pos[k] - pos[nrec - 1])); }
         if (!(dl < 2e-4 && dp < 2e-4)) { o.discard("not stationary at the end (" + kind + ")"); o.probe("reach.discarded_not_stationary"); return o; }
-        if (!(std::fabs(pop[nrec - 1] - 1) < 0.05)) { o.discard("charge not conserved (distribution reached the border)"); return o; }
+        if (!(std::fabs(pop[nrec - 1] - 1) < 0.05)) {
+            // a proviso only when the distribution really reached the grid border at some time; charge that disappears inside the
+            // grid is not excused: such a run is judged like any other
+            auto eprof = s.f32("/EnergyProfile/data");
+            double edge = 0;
+            for (size_t k = 0; k < nrec; k++) {
+                double m = 0, e = 0;
+                for (unsigned i = 0; i < n; i++) m = std::max(m, (double)prof[k * n + i]);
+                for (unsigned i : {0u, 1u, n - 2, n - 1}) { e = std::max(e, (double)prof[k * n + i]); if (eprof.size() == nrec * n) e = std::max(e, (double)eprof[k * n + i]); }
+                if (m > 0) edge = std::max(edge, e / m);
+            }
+            if (edge > 1e-5) { o.discard("charge not conserved (distribution reached the border)"); return o; }
+            o.probe("reach.charge_lost_inside_grid");
+        }
         const float* P = &prof[(nrec - 1) * n];
         const float* W = &wake[(nrec - 1) * n];
         double pmax = 0; for (unsigned i = 0; i < n; i++) pmax = std::max(pmax, (double)P[i]);
@@ -152,6 +168,7 @@ struct C05 : Scenario {
         std::string sb = cfg.steps < 120 ? "s<120" : cfg.steps < 300 ? "s<300" : "s>=300";
         std::string sh = (cfg.shiftx == 0 && cfg.shifty == 0) ? "centred" : cfg.shiftx == cfg.shifty ? "eq" : "uneq";
         o.probe("cls." + kind + "." + db + "." + sb + "." + sh + (n < 72 ? ".g<72" : n < 100 ? ".g<100" : ".g>=100") + ".ip" + std::to_string(cfg.interp));
+        if (cfg.zoom <= 0.3) o.probe("reach.start_with_exact_zero_columns");
         if (spreadW >= 0.3) o.probe("reach.order_one_distortion");
         if (spreadW < 0.05) o.probe("reach.weak_distortion");
         o.nontrivial = spreadW >= 0.05;
